@@ -123,6 +123,8 @@ class Session:
 
     # -- input -------------------------------------------------------------------------
     def feed_frame(self, payload: bytes):
+        if self.reader._eof:  # connection already closed by the server
+            return
         self.reader.feed_data(b"{%d}\n" % len(payload) + payload)
 
     def feed_eof(self):
